@@ -14,7 +14,7 @@ from . import _c16_spec as S
 
 SERIES_P = 0.1  # share of (non-clean) pandas cases that use Series[T] / Index[T] annotations
 ATTRS = ["a", "b", "c", "d", "e", "f"]
-ALIASES = ["x", "y", "z", "w", 2020]
+ALIASES = ["x", "y", "z", "w", 2020, 0, ""]  # (0 and "" are legal labels: falsy is not the same as absent)
 # regex field names: pattern -> (matching labels, a non-matching label)
 REGEX_FIELDS = {"^r[0-9]$": (["r1", "r2"], "rx"), "s.": (["s1", "sa"], "s"), "t1|t2": (["t1", "t2"], "t3")}
 CHECK_PATTERNS = [".", "^[a-c]$", "x|y", "a", "^[d-z]"]
